@@ -376,7 +376,7 @@ def l3_cases(nblocks, variants, quick, ty="i32", sk=None):
             conds = [(k + v) % nc for k in range(nblocks)]
             progs.append(irgen.l3_program(skel, bodies, conds, ty))
     for d in progs:
-        yield {"kind": "cfg", "info": {"fam": "l3", "features": "memory-variables"}, "feat": "l3 %d blocks" % nblocks, "desc": d, "args": cfg_args(ty, quick), "steps": 120}
+        yield {"kind": "cfg", "info": {"fam": "l3", "features": "memory-variables"}, "feat": "l3 %d blocks" % nblocks, "desc": d, "args": cfg_args(ty, quick), "steps": 64}
 
 
 def l4_cases(types, quick):
@@ -555,12 +555,12 @@ def ssa_cases(nblocks, quick, ty="i32", full=False, sk=None, unpruned=True):
         for bodies, conds in combos:
             d = ssa_program(skel, bodies, conds, ty, prune=True)
             yield {"kind": "cfg", "info": {"fam": "ssa", "features": phi_features(d["functions"][0])}, "feat": "pruned ssa %d blocks" % nblocks, "desc": d,
-                   "args": cfg_args(ty, quick), "steps": 120}
+                   "args": cfg_args(ty, quick), "steps": 64}
             if unpruned:
                 d2 = ssa_program(skel, bodies, conds, ty, prune=False)
                 if d2 != d:
                     yield {"kind": "cfg", "info": {"fam": "ssa", "features": phi_features(d2["functions"][0])}, "feat": "ssa %d blocks" % nblocks, "desc": d2,
-                           "args": cfg_args(ty, quick), "steps": 120}
+                           "args": cfg_args(ty, quick), "steps": 64}
 
 
 # --------------------------------------------------------------------------- stack frames and function pointers (hand-shaped)
